@@ -1,5 +1,6 @@
 use crate::fw::{Ctx, Report, Verdict};
 
+pub mod c05;
 pub mod c12;
 pub mod c14;
 pub mod c15;
@@ -26,6 +27,8 @@ pub fn lookup(id: &str) -> Option<Entry> {
         };
     }
     match id {
+        "C05" => e!(c05),
+        "C07" => e!(c05),
         "C12" => e!(c12),
         "C13" => e!(c12),
         "C14" => e!(c14),
